@@ -168,6 +168,17 @@ Theorem C05_sanitize_pixels_reflect : forall ob r,
 Proof. exact sanitize_px1_spec. Qed.
 Print Assumptions C05_sanitize_pixels_reflect.
 
+(** 7. `cooler cload pairs`: the stored pixels are aggregate_records of the per-record outputs of the whole input,
+    however the reader cuts the file into chunks; the command fails iff some record is an error on its own *)
+Theorem C05_cload_pairs_spec : forall blocks zero_based ta chunks,
+  cload_pairs blocks zero_based ta chunks =
+  match collect (map (sanitize1 blocks (negb zero_based) true ta) (concat chunks)) with
+  | None => None
+  | Some recs => Some (aggregate_records recs)
+  end.
+Proof. exact cload_pairs_spec. Qed.
+Print Assumptions C05_cload_pairs_spec.
+
 (** non-vacuity: a variable-width table with a longer last bin, records on bin edges, a lower-triangle
     record, an unknown chromosome, one-based input *)
 Example ex_C05_variable :
